@@ -260,7 +260,8 @@ def extent_rules(run, F, E, decided=()):
             ext = storage_extent(F, fn, field)
             if ext is None:
                 continue
-            lps = loops.loops_of(fn)
+            from lint import anchors as _anc
+            lps = loops.loops_of(_anc.through_forwarders(F, fn))      # a public wrapper that only forwards to a non-public implementation
             ok = len(lps) == 1 and loops.full_extent(lps[0], ext) and not loops.has_jump(lps[0], ('cont',))
             if ok and lps[0].kind == 'counted':
                 # the body must index the array with the induction variable itself
